@@ -593,13 +593,23 @@ def run_check(prop, tier, seed, cfg, rundir, t0, replay_file):
         try:
             facts = json.load(open(os.path.join(rundir, "gen", "facts.json")))
             ktext = open(os.path.join(VERIF, cfg["access_known_file"])).read()
-            kpairs = set(a + "|" + b for a, b in re.findall(r'\("([^"]+)",\s*"([^"]+)"\)', ktext))
+            def known_block(name):
+                m = re.search(r"def " + name + r"\b[^\[]*:= \[(.*?)\n\]", ktext, re.S)
+                return set(a + "|" + b for a, b in re.findall(r'\("([^"]+)",\s*"([^"]+)"\)', m.group(1))) if m else set()
+            kpairs = known_block("knownPairs")
             for v in facts.get("violations", []):
                 if v not in kpairs:
                     c = {"id": "access-table", "ops": ["extract /repo/torrent"], "obs": [v]}
                     report_violation("access", c, None, f"{prop} unsynchronised-access pair={v}", "oracle")
             fixed_pairs = sorted(kpairs - set(facts.get("violations", [])))
             if fixed_pairs: log(f"[{prop}] known pairs no longer present: {fixed_pairs[:5]}")
+            # guarded fields of Session touched without their mutex: sites not in the Lean known list are violations,
+            # recorded ones must be covered by a known finding
+            for v in facts.get("session_field_violations", []):
+                sites = [x for x in facts.get("session_field_violation_sites", []) if x.startswith(v + "|")]
+                c = {"id": "session-fields", "ops": ["extract guarded fields of Session (theorem Rain.Props.C20.session_fields_guarded_except_known)"] + ["site " + x for x in sites],
+                     "obs": [v] + ["guard not held (or only shared for a write)"] * len(sites)}
+                report_violation("session-fields", c, None, f"{prop} unguarded-session-field:{v.replace('|', ':')}", "static")
             # lock-nesting graph: every cycle found by the extractor is a counterexample to lock_nesting_acyclic;
             # the replay lists the nestings (function, file:line, call chain) that close the cycle
             for cyc in facts.get("lock_cycles", []):
